@@ -151,11 +151,11 @@ fn operand(f: &mut FileB, s: &S, kind: Kind, name: &str, salt: u64, holds: &mut 
     match (kind, s) {
         (Kind::Const(fl), S::BV(w)) => const_line(f, *w, fl, salt),
         (Kind::State, _) => {
-            let id = f.line(&format!("state {sid} {name}"));
+            let id = f.line(format!("state {sid} {name}").trim_end());
             holds.push((sid, id));
             id
         }
-        _ => f.line(&format!("input {sid} {name}")),
+        _ => f.line(format!("input {sid} {name}").trim_end()),
     }
 }
 
@@ -172,7 +172,15 @@ pub fn single_op_file(case: &OpCase, kinds: &[Kind], neg: u8, sorts_first: bool,
     let mut holds = vec![];
     let mut ids = vec![];
     for (i, a) in case.args.iter().enumerate() {
-        ids.push(operand(&mut f, a, kinds[i % kinds.len()], &format!("x{i}"), salt + i as u64, &mut holds));
+        // name styles: plain; duplicates next to a name shaped like a uniquified one; a name shaped like a
+        // generated default next to anonymous signals
+        let name = match salt % 6 {
+            1 => if i == 0 { "d_0".to_string() } else { "d".to_string() },
+            2 => if i == 0 { "_input_0".to_string() } else { String::new() },
+            3 => if i == 0 { "_state_0".to_string() } else { String::new() },
+            _ => format!("x{i}"),
+        };
+        ids.push(operand(&mut f, a, kinds[i % kinds.len()], &name, salt + i as u64, &mut holds));
     }
     let rs = f.sort(&case.res);
     let refs: Vec<String> = ids
@@ -328,6 +336,16 @@ pub fn compare(rep: &mut Report, label: &str, txt: &str, ctx: &Context, sys: &Tr
             json!({"file": replay, "text": txt}),
         );
         return;
+    }
+    // distinct lines must become distinct symbols
+    {
+        let mut seen = std::collections::HashSet::new();
+        for s in sys.inputs.iter().copied().chain(sys.states.iter().map(|s| s.symbol)) {
+            if !seen.insert(s) {
+                rep.violation(Role::new(SITE, "system", "distinct-lines-same-symbol"), format!("{label}: two different input/state lines are parsed as the same symbol `{}`", ctx.get_symbol_name(s).unwrap_or("?")), json!({"file": replay, "text": txt}));
+                return;
+            }
+        }
     }
     let mut sym_map: HashMap<ExprRef, String> = HashMap::new();
     let mut prelude = String::new();
